@@ -126,7 +126,7 @@ func Atoms() []string {
 // Instances is the instance alphabet (JSON texts), simplest first.
 var Instances = []string{
 	`null`, `true`, `false`, `0`, `1`, `2`, `2.5`, `3`, `-2`, `900719925474099`, `1000000000.5`, `0.3`,
-	`""`, `"a"`, `"aa"`, `"é€"`, `"2020-01-01"`,
+	`""`, `"a"`, `"aa"`, `"é"`, `"é€"`, `"2020-01-01"`,
 	`[]`, `[1]`, `[1,2]`, `[1,1]`, `[1,"x"]`, `[1,2,3]`, `[1,2,3,4,"x"]`, `[null]`, `[[1],[1]]`, `["aa",3]`,
 	`{}`, `{"a":1}`, `{"a":"x"}`, `{"a":1,"b":2}`, `{"a":null}`, `{"ab":1}`, `{"id":1}`, `{"$schema":1}`,
 	`{"a":{"a":1}}`, `{"a":[1,"x"]}`, `{"b":"aa"}`, `{"a":3,"c":"aa"}`, `{"a":"aa","b":3}`,
